@@ -321,6 +321,7 @@ auto count_min_sketch<W,A>::deserialize(std::istream& is, uint64_t seed, const A
   const auto nhashes = read<uint8_t>(is);
   const auto seed_hash = read<uint16_t>(is);
   read<uint8_t>(is); // 1 unused byte
+  if (!is.good()) throw std::runtime_error("error reading from std::istream");
 
   if (seed_hash != compute_seed_hash(seed)) {
     throw std::invalid_argument("Incompatible seed hashes: " + std::to_string(seed_hash) + ", "
@@ -334,6 +335,7 @@ auto count_min_sketch<W,A>::deserialize(std::istream& is, uint64_t seed, const A
   const auto weight = read<W>(is);
   c._total_weight += weight;
   read(is, c._sketch_array.data(), sizeof(W) * c._sketch_array.size());
+  if (!is.good()) throw std::runtime_error("error reading from std::istream");
 
   return c;
 }
